@@ -55,6 +55,11 @@ THOROUGH = QUICK + [
     _c('coarse_storage_mask', 'coarse', dict(T=4, kind='storage', eff=0.75), ('mask', [0, 0, 0, 1])),
     _c('ext_transport_date', 'ext_transport', dict(T=3), ('date', 0, 30)),
     _c('halfhour_date', 'contract_storage', dict(T=4, freq='30min'), ('date', 1, 29)),
+    # deeper: five steps, several fixed steps, discounting
+    _c('contract_storage_T5_mask_wacc', 'contract_storage', dict(T=5, wacc=True), ('mask', [1, 1, 0, 0, 0])),
+    _c('two_node_T5_date_between', 'two_node', dict(T=5), ('date', 2, 45)),
+    _c('scaled_transport_all_but_last', 'scaled', dict(T=4, base='transport'), ('mask', [1, 1, 1, 0])),
+    _c('structured_T4_non_contiguous_mask', 'structured', dict(T=4), ('mask', [1, 0, 1, 0])),
 ]
 BOUNDS = dict(quick='shapes %s; windows as index masks and as dates (on / between grid points); T<=4' % [c[0] for c in QUICK],
               thorough='shapes %s' % [c[0] for c in THOROUGH])
